@@ -106,6 +106,11 @@ def build_case(I, st, clsname, variant, field):
         A = AbsOp(I, 'A', X, Y, la)
         v = Y.element('vec')
         vecs['vec'] = v
+        if variant.get('nested'):
+            # (A + vec0) + vec: the wrapped operator is itself a vector sum; both vectors belong to the caller
+            v0 = Y.element('vec0')
+            vecs['vec0'] = v0
+            return [('nested', I.get_class(OP + clsname), A.op, v0), v], kw, X, Y, False, vecs, (X, Y, Z)
         return [A.op, v], kw, X, Y, False, vecs, (X, Y, Z)
     if clsname in ('OperatorLeftScalarMult', 'OperatorRightScalarMult'):
         R = F if ranF else Y
@@ -143,7 +148,7 @@ VARIANTS = {
     'OperatorSum': [dict(la=a, lb=b, ranF=r, tmp=t) for a in (0, 1) for b in (0, 1) for r in (0, 1) for t in (0, 1) if not (r and t)],
     'OperatorPointwiseProduct': [dict(la=a, lb=b, ranF=r) for a in (0, 1) for b in (0, 1) for r in (0, 1)],
     'OperatorComp': [dict(la=a, lb=b, ranF=r, tmp=t) for a in (0, 1) for b in (0, 1) for r in (0, 1) for t in (0, 1)],
-    'OperatorVectorSum': [dict(la=a) for a in (0, 1)],
+    'OperatorVectorSum': [dict(la=a, nested=n) for a in (0, 1) for n in (0, 1)],
     'OperatorLeftScalarMult': [dict(la=a, ranF=r, nested=n) for a in (0, 1) for r in (0, 1) for n in (0, 1)],
     'OperatorRightScalarMult': [dict(la=a, ranF=r, nested=n, tmp=t) for a in (0, 1) for r in (0, 1) for n in (0, 1) for t in (0, 1)],
     'FunctionalLeftVectorMult': [dict(la=a) for a in (0, 1)],
@@ -173,6 +178,7 @@ def unit_class(clsname, field, aliased=False, prop='C04'):
                         inner = I.call(ncls, [aop, t], {}, fr)
                         args = [inner] + args[1:]
                         orig_args = list(args)
+                    before = {k: value_of(v) for k, v in vecs.items()}
                     inst = I.call(cls, args, kw, fr)
                     x = domb.element('x') if not isinstance(domb, FieldSpec) else om.sym_scalar('x', field)
                     out = ranb.element('out') if form == 'in-place' else None
@@ -188,7 +194,7 @@ def unit_class(clsname, field, aliased=False, prop='C04'):
                             ret = I.call(get(I, fr, inst, '_call'), [x], {}, fr)
                     except ip.PyRaise as e:
                         return ('raise', e.exc)
-                    return ('ok', dict(inst=inst, ret=ret, out=out, x=x, old=old, by=bystanders, expected=expected,
+                    return ('ok', dict(inst=inst, ret=ret, out=out, x=x, old=old, by=bystanders, expected=expected, before=before,
                                        structural=structural, domb=domb, ranb=ranb, lin=lin, fr=fr, kw=kw))
                 info = {'class': clsname, 'variant': variant, 'form': form, 'field': field}
                 for st, (status, r) in ctx.explore(path):
@@ -203,6 +209,10 @@ def unit_class(clsname, field, aliased=False, prop='C04'):
                     ctx.prove(st, 'ctor:range', same_set(I, fr, get(I, fr, inst, 'range'), r['ranb'].space), info)
                     ctx.prove(st, 'ctor:is_linear as implied', get(I, fr, inst, 'is_linear') == bool(r['lin']), info)
                     ctx.prove(st, 'ctor:stored fields have the table semantics (scalar merging)', lib.eq_goal(low, r['structural'], r['expected']), info)
+                    for k in sorted(r['before']):
+                        if k not in r['kw']:
+                            # building an expression must not write to the caller's vectors (they are operands of other expressions too): compare with the content BEFORE construction
+                            ctx.prove(st, 'ctor:operand vector %s is not modified by building the expression' % k, lib.eq_goal(low, r['old'][k], r['before'][k]), info)
                     # Level 1: _call
                     got = r['ret'] if form == 'out-of-place' else r['out']
                     if form == 'in-place':
@@ -500,6 +510,40 @@ def units(tier, seed):
     return us
 
 
+def replay_construction(ob):
+    """native: building expressions from caller-owned vectors leaves the vectors alone, and a vector reused in a second expression still has its value"""
+    import os
+    import sys
+    root = os.environ.get('PYVC_REPO', '/repo')
+    if root not in sys.path:
+        sys.path.insert(0, root)
+    import numpy as np
+    import odl
+    X = odl.rn(3)
+    A = odl.MatrixOperator(np.arange(9.0).reshape(3, 3) / 4)
+    N = odl.ufunc_ops.sin(X) * A
+    for op in (A, N):
+        v, w, x = X.element([1, 2, 3]), X.element([10, 20, 30]), X.element([0.5, -1, 2])
+        v0, w0 = v.copy(), w.copy()
+        exprs = {'(A + v) + w': lambda: (op + v) + w, '((A + v) + w) + w': lambda: ((op + v) + w) + w, '(A * v) * w': lambda: (op * v) * w, '(v * A) + w': lambda: (v * op) + w,
+                 'w * (A + v)': lambda: w * (op + v), '(A + v) - w': lambda: (op + v) - w}
+        for label, mk in exprs.items():
+            e = mk()
+            if (v - v0).norm() != 0 or (w - w0).norm() != 0:
+                return {'reproduced': True, 'detail': 'building %s modified the caller\'s vectors: v = %r (was %r), w = %r (was %r)' % (label, v, v0, w, w0)}
+            e(x)
+            if (v - v0).norm() != 0 or (w - w0).norm() != 0:
+                return {'reproduced': True, 'detail': 'evaluating %s modified the caller\'s vectors' % label}
+    return {'reproduced': False, 'detail': 'operand vectors untouched by construction and evaluation natively'}
+
+
 def replay(ob):
+    if 'operand vector' in ob.get('name', '') or ob.get('name', '').startswith('frame:vec'):
+        try:
+            r = replay_construction(ob)
+            if r.get('reproduced'):
+                return r
+        except Exception as e:
+            return {'reproduced': False, 'detail': 'replay harness error: %r' % (e,)}
     from contracts import replay_ops
     return replay_ops.replay_overload(ob)
